@@ -38,16 +38,17 @@ type Rule struct {
 }
 
 type Ctx struct {
-	P       *Prog
-	Prop    string
-	Tier    string
-	Start   time.Time
-	Rules   []*Rule
-	Assume  []string
-	Explain string
-	Counts  map[string]int
-	NoWrite bool
-	Quiet   bool
+	P             *Prog
+	Prop          string
+	Tier          string
+	Start         time.Time
+	Rules         []*Rule
+	Assume        []string
+	Explain       string
+	Counts        map[string]int
+	NoWrite       bool
+	Quiet         bool
+	ListUndecided bool
 }
 
 func NewCtx(p *Prog, prop, tier string) *Ctx {
@@ -171,8 +172,22 @@ func (c *Ctx) Finish() int {
 	}
 	nrep := 0
 	var floorErrs []string
+	var allObl strings.Builder
+	defer func() {
+		if !c.NoWrite {
+			d := filepath.Join(Home, "evidence", "obligations")
+			os.MkdirAll(d, 0o755)
+			os.WriteFile(filepath.Join(d, c.Prop+".tsv"), []byte("rule\tstatus\tkey\tsite\tdetail\n"+allObl.String()), 0o644)
+		}
+	}()
 	for _, r := range c.Rules {
 		sort.SliceStable(r.Obls, func(i, j int) bool { return r.Obls[i].Key < r.Obls[j].Key })
+		for _, o := range r.Obls {
+			fmt.Fprintf(&allObl, "%s\t%s\t%s\t%s\t%s\n", r.ID, o.Status, o.Key, o.Site, strings.ReplaceAll(o.Detail, "\n", " "))
+			if c.ListUndecided && o.Status == "undecided" {
+				fmt.Printf("  undecided [%s] %s %s: %s\n", r.ID, o.Site, o.Key, o.Detail)
+			}
+		}
 		nObl := 0
 		seenKey := map[string]bool{}
 		rv, rk := 0, 0
